@@ -86,13 +86,21 @@ def behaviour_symptom(prefix: str, path: list | None, shape: str) -> str:
     if path is None:
         return f"{prefix}:differs-later:{shape}" if shape in CHAOS_TOKENS else f"{prefix}:op-free-cycle:{shape}"
     where, what = mismatch_class(path).split(":", 1)
+    if what in KNOWN_LOSSY_SPELLINGS:
+        return f"{prefix}:{what}"  # also in inputs with a leading Jump / a Call: the symptom is specific enough
     if shape in CHAOS_TOKENS:
         return f"{prefix}:differs-{where}:{shape}"
-    if what.startswith(("same-op-other-parameter", "printed-as:")):
+    if what.startswith("same-op-other-parameter"):
         return f"{prefix}:{what}"
     return f"{prefix}:{where}:{what}:{shape}"
 
 
+KNOWN_LOSSY_SPELLINGS = (
+    "printed-as:BranchValue-comes-back-as-Branch",  # `$v == 1`
+    "printed-as:flag_CalcValue-comes-back-as-flag_Set",  # `$v = 1;`
+    "printed-as:CaseValue-comes-back-as-CaseScenario",  # `case > 1:` under switch ( scn($v)[0] )
+    "printed-as:CaseScenario-comes-back-as-CaseValue",
+)
 _SUPER = {"Branch*": "branch", "Case*": "case", "CaseScenario": "case", "flag_*": "flag", "Switch*": "switch", "message_Switch*": "msw", "ctx-op": "ctx"}
 
 
@@ -112,7 +120,13 @@ def mismatch_class(path: list) -> str:
         what = f"stops({ll[0]})-where-input-continues"
     elif rk == "stop":
         what = f"continues-where-input-stops({rl[0]})"
-    elif lk == rk and _SUPER.get(_family(ll[0])) is not None and _SUPER.get(_family(ll[0])) == _SUPER.get(_family(rl[0])) and ll[0] != rl[0]:
+    elif (
+        lk == rk
+        and _SUPER.get(_family(ll[0])) is not None
+        and _SUPER.get(_family(ll[0])) == _SUPER.get(_family(rl[0]))
+        and ll[0] != rl[0]
+        and (set(ll[1]) <= set(rl[1]) or set(rl[1]) <= set(ll[1]))
+    ):
         what = f"printed-as:{rl[0]}-comes-back-as-{ll[0]}"  # two ops of one special-syntax family: the names themselves are the symptom
     elif _family(ll[0]) != _family(rl[0]):
         what = f"{_family(ll[0])}-instead-of-{_family(rl[0])}"
